@@ -194,13 +194,14 @@ def parsed_matches(prop, fn, p, cls, obj, d, case, where_, tag, dm):
         else:
             ob("parsed_mod", z3.BoolVal(False))
     b = attr(obj, "burst")
+    std = L.std_len(cls, d)          # the number of burst bits is fixed by the layout only for the payload lengths the encoder produces
     if b is None:
-        ob("parsed_burst_none", d["burst_none"])
+        ob("parsed_burst_none", z3.Implies(std, d["burst_none"]))
     elif isinstance(b, SSeq):
-        ob("parsed_burst_present", z3.Not(d["burst_none"]))
-        ob("parsed_burst_len", models.zint(b.length) == d["blen"])
+        ob("parsed_burst_present", z3.Implies(std, z3.Not(d["burst_none"])))
+        ob("parsed_burst_len", z3.Implies(std, models.zint(b.length) == d["blen"]))
         k = z3.Int("k!skolem")
-        out.append(Obligation(prop, fn, "parsed_burst_bits", p.pc + [k >= 0, k < d["blen"]],
+        out.append(Obligation(prop, fn, "parsed_burst_bits", p.pc + [k >= 0, k < d["blen"], k < models.zint(b.length)],
                               models.zint(b.get(k)) == d["bget"](k), kind="post", case=case, where=where_, tag=tag))
         want = "bytearray" if cls == "tx" else "array_b"
         ob("parsed_burst_type", z3.BoolVal(b.kind == want))
@@ -418,6 +419,7 @@ def concrete_dec(cls, data):
             continue
         s = z3.simplify(t)
         out[k_] = s.as_long() if z3.is_int_value(s) else z3.is_true(s)
+    out["std_len"] = z3.is_true(z3.simplify(L.std_len(cls, d)))
     out["must_accept"] = bool(out["accept"]) and z3.is_true(z3.simplify(L.dec_valid(cls, d)))
     if out["accept"] and not out["burst_none"]:
         out["burst"] = [z3.simplify(d["bget"](z3.IntVal(i))).as_long() for i in range(out["blen"])]
@@ -501,7 +503,11 @@ def replay(payload):
                 coding = {mm.name: mm.coding for mm in dm.Modulation}.get(got["mod"])
                 if coding != d["coding"] and not (coding is None and d["coding"] not in L.CODINGS):
                     bad.append(("mod", got["mod"], d["coding"]))
-        if d["burst_none"] != (got["burst"] is None):
+        if not d["std_len"]:
+            # payload length the encoder never produces: the layout does not fix the number of burst bits; the bits kept must still be the octets' bits
+            if got["burst"] is not None and d.get("burst") is not None and got["burst"][:len(d["burst"])] != d["burst"][:len(got["burst"])]:
+                bad.append(("burst prefix", got["burst"][:16], d["burst"][:16]))
+        elif d["burst_none"] != (got["burst"] is None):
             bad.append(("burst_none", got["burst"] is None, d["burst_none"]))
         elif got["burst"] is not None and got["burst"] != d["burst"]:
             bad.append(("burst", got["burst"][:16], d["burst"][:16]))
